@@ -1,4 +1,5 @@
 void harness(void) {
+  VERIF_PROLOGUE();
   blake3_chunk_state *self;
   const uint8_t *input;
   size_t input_len;
